@@ -9,63 +9,63 @@ P = {
  "C01": ("storage-table agreement (CREATE TABLE/_INSERT/_SELECT/_UPDATE/astuple/Feature.__init__), one insert per parsed item on all CFG paths, symmetric order-preserving JSON codec, dialect plumbing iterator->meta->FeatureDB->_feature_returner (who-constructs), column constants of feature_from_line/__unicode__",
          "byte-identity of printed lines, iteration order without ORDER BY (SQLite scan order), re-import equivalence",
          "writer/reader table agreement + CFG must-pass-through + who-constructs rule", "3 C01"),
- "C02": ("level-1 relation insert shape (loop over whole Parent value, (parent, f.id, 1), OR IGNORE, after id assignment), level-2 closure = composition of two level-1 edges (conjunctive-query comparison), closure after population (dominance), children/parents = exact join with DISTINCT and correct binding in every partition",
+ "C02": ("level-1 relation rows by value provenance (parent column <- each value of the feature's whole Parent attribute, child <- the feature's final id, level 1, OR IGNORE, unconditional) through helpers and temporaries; every pass of the line loop that stored the feature passes the relation writer or a Parent-absence edge (CFG must-pass), id final before the writer; level-2 closure = composition of two level-1 edges (conjunctive-query comparison) driven by every feature id; closure file writer/reader agreement by provenance; closure after population; children/parents = exact join with DISTINCT and correct binding in every partition",
          "'never its own relative' and behaviour under every permutation of lines (data-dependent)",
-         "conjunctive-query normal form comparison + partitioned dataflow over query builders + CFG dominance", "3 C02"),
- "C03": ("the three per-line relation tuples (reaching definitions), pair/extent queries as conjunctive queries, writer/reader agreement of the derived-feature file, disable_infer_* as exact control dependences, derived collisions use 'merge', order-sensitive format routing table, guard excluding parent == child",
+         "interprocedural value provenance (reaching definitions + caller substitution) + CFG must-pass-through + conjunctive-query normal form comparison + partitioned dataflow over query builders", "3 C02; 9.7"),
+ "C03": ("the three per-line relation tuples (reaching definitions), pair query as a conjunctive query, every field of the derived-feature record traced by provenance to the column of the extent query it comes from (MIN(start)/MAX(end)/strand/seqid of one row, id of the pair row, bin of its own extent, id under the configured key), writer/reader agreement of the derived-feature file, writes reachable exactly when the disable_infer_* flag is off (path conditions, three-valued over the four flag valuations), derived collisions use 'merge', format routing as a decision table by abstract evaluation of create_db/update over force x fmt x id_spec, guard excluding parent == child",
          "numeric extents for concrete files (aggregates computed by SQLite)",
-         "reaching definitions + conjunctive-query comparison + decision-table extraction", "3 C03"),
- "C04": ("id derivation cascade (kinds, fall-through on miss, prefix slice from prefix length), multi-value rejection dominates first-value use, counter incremented before '<base>_<n>' (same shape in merge()), PRIMARY KEY(id) + plain INSERT, exact look-up raising FeatureNotFoundError, default id_spec per format",
-         "numbering 'in input order' separately (follows from C01.R2 + R4)",
-         "CFG dominance + decision-table extraction + parsed SQL", "3 C04"),
- "C05": ("dispatcher decision table (five strategies, unknown rejected), handler decision tables of both importers and their equality, compared-column set folds to 8 fixed columns minus force_merge_fields, set-dedup, forced columns comma-joined, candidate query as conjunctive query, duplicates bookkeeping, no relation insert on the discard path, (known finding) relations of a replaced row",
-         "the outcome for every interleaving of collisions (history-dependent data)",
-         "order-sensitive decision tables + sibling cross-check + value-sensitive structured path walk", "3 C05"),
+         "value provenance + conjunctive-query comparison + path-condition evaluation + abstract evaluation (partitioned dataflow) of the routing functions", "3 C03; 9.7"),
+ "C04": ("id derivation as a decision table: _id_handler evaluated abstractly for 22 id_spec/feature scenarios (string, ':field:', list with fall-through, dict by featuretype, callable truthy/None/empty/'autoincrement:<base>', multi-valued attribute rejected in every form, per-base counters); counter routine evaluated for start states; merge()'s id generator by provenance (<base>_<counters[base]> after an increment); PRIMARY KEY(id) + plain INSERT; db[key] evaluated for string/Feature key x absent/present row (exact look-up on the id, FeatureNotFoundError); default id_spec per format",
+         "numbering 'in input order' separately (follows from C01.R2 + R4); id_spec forms outside the scenario table",
+         "abstract evaluation (partitioned dataflow interpreter over the source, never executed) on a scenario table + value provenance + parsed SQL", "3 C04; 9.7"),
+ "C05": ("dispatcher decision table by abstract evaluation of _do_merge over 30 scenarios (five strategies, unknown rejected, each fixed column differing with and without force_merge_fields, overlapping attribute sets, several candidates, a stored forced column that is already a joined set, the no-candidate path with its duplicates row); one pass of each importer's line loop evaluated per strategy with the statements it executes and their bound values (GFF and GTF tables equal; discarded newcomers write no relations, kept ones all of theirs under the final id); candidate query as conjunctive query; constructor rejects start/end; (known finding) relations of a replaced row",
+         "the outcome for every interleaving of collisions beyond the scenarios (history-dependent data)",
+         "abstract evaluation (partitioned dataflow interpreter, callee summaries) into decision tables + sibling cross-check + conjunctive-query comparison", "3 C05; 9.7"),
  "C06": ("coordinate predicate of every generated statement equivalent to the specification (both bounds) or inside the sandwich (one bound) under all orderings, bin pre-filter only outside bins()'s fallback domain, stored bin recomputed from the same feature's (start,end), exactly the restrictions asked for (strand is the caller's)",
          "results for concrete feature sets",
          "partitioned dataflow (static string analysis) over make_query/region + order-predicate decision on a complete grid", "3 C06"),
- "C07": ("dialect keys written by inference are read by reconstruction and declared, separators longest-first, splitter/joiner literals agree, parsing layers and printing layers mirror each other in CFG order, column constants",
-         "byte-for-byte identity for every line of the grammar, strict=False equality (inverse of a string transducer over unbounded values)",
-         "set comparison of def/use keys + CFG ordering of layers", "3 C07"),
- "C08": ("encode set covers the reserved characters, encode condition == decode condition (truth table), encoder format %XX upper-case per character, every partial operation of the attribute parser discharged by a named justification, no while/recursion, values are lists of strings by construction",
-         "that a printed feature re-parses to the same mapping (string semantics)",
-         "guarded-partial-operation analysis (dominance, and-chains, split-result typing) + truth tables", "3 C08"),
- "C09": ("weighted vote shape (weight, accumulation, stable descending sort without secondary key, first-seen key order), dialect assignment dominates every yield, peek only without a supplied dialect, exactly three callers of the one inference function, inference decisions as (guard, value) pairs incl. the key pattern via re._parser, format routing",
-         "that the full dictionary is recovered for every consistent input",
-         "def-use + CFG dominance + call-graph who-may-call", "3 C09"),
- "C10": ("backup guard dominates every statement with a database-write effect in update/delete, DELETE statements parsed and bound to one id, counters flow live and are written back/reloaded, driver order by (post-)dominance, no write before the early return of an empty update, level-2 closure (shared with C02.R2), add_relation row",
+ "C07": ("dialect keys written by inference are read by reconstruction and declared; separators longest-first; printing never mutates the shared dialect; _reconstruct evaluated for a symbolic mapping under 212 dialect configurations and compared token by token with the template the dialect denotes; that template fed back to _split_keyvals (dialect supplied and inferred, also with blanks and '=' inside quoted values): the mapping comes back and inference reports the dialect it was written in; decode layer per value, never re-split, after the format is final; column handling of feature_from_line/__unicode__",
+         "byte-for-byte identity for arbitrary values (escapes and structural characters inside values beyond the templates), strict=False equality",
+         "static string analysis (strings with holes, partitioned dataflow) of printer and parser: template round trip; set comparison of def/use keys", "3 C07; 9.7"),
+ "C08": ("effective encode set (the constant the encoder tests membership in) covers the reserved characters and excludes blank/quote; encoder evaluated on a symbolic character: %XX upper-case exactly for members, identity otherwise, cache consistent; encode condition == decode condition; printer/parser template round trip; every constant-index subscript and fixed-arity unpack of the attribute parser and of feature_from_line covered by the abstract sequence length of its base (or an enclosing handler), mapping reads by named justification; no while/recursion; values are lists",
+         "that a printed feature re-parses to the same mapping for arbitrary values (string semantics)",
+         "sequence-length abstract interpretation on the CFG (edge refinement, calling-context helper analysis) + abstract evaluation of the encoder + template round trip", "3 C08; 9.7"),
+ "C09": ("the vote evaluated abstractly on small peeks (weight = number of attributes, per-key accumulation, ties to the first-seen value also when another value led in between, key order rebuilt first-seen, empty peek -> default); iterator constructor over dialect given/None x force_dialect_check (peek only without a dialect, supplied dialect verbatim, vote over the peek); every yielded feature carries the iterator's dialect, attached before the transform; create_db hands the caller's or the iterator's dialect to the importer; the three entry points reach the one inference function; inference decisions by template round trip (inferred dialect == written dialect); key pattern == \\w+= on a separating corpus; parser never writes into the shared default; format routing",
+         "that the full dictionary is recovered for every consistent input beyond the templates",
+         "abstract evaluation (partitioned dataflow interpreter) on scenarios + template round trip + call-graph reachability + value provenance", "3 C09; 9.7"),
+ "C10": ("update/delete evaluated abstractly for make_backup x (database is a file / a connection): exactly one copy dbfn -> dbfn.bak iff both hold (also with further keyword arguments), before any event that can write; delete executes per element one DELETE on features by id and one on relations by parent-or-child, bound to the element's id (Feature -> its id), nothing else, committed; update hands the live counter object, dbfn, dialect and the built iterator to the importer, runs populate -> relations -> finalize, returns before any write when the source is empty; importer keeps the given counter object (no copy, also when empty); counters written back OR REPLACE and reloaded; level-2 closure (shared with C02.R2); add_relation row for Feature and id arguments",
          "equality with a reference model after every history",
-         "effect closure over the resolved call graph + CFG dominance/post-dominance", "3 C10"),
+         "abstract evaluation (partitioned dataflow interpreter) into event traces + effect closure over the resolved call graph + value provenance", "3 C10; 9.7"),
  "C11": ("placeholders and arguments in lock-step in every partition of make_query's configuration space (exhaustive), filters bound to the requested values, order_by validated/translated alike in str and iterable form, ASC/DESC, count/distinct listings on the right column, exactly one WHERE (parse)",
          "sort results on concrete data (SQLite's sorter, collation, ties)",
          "partitioned dataflow (static string analysis) + SQL parsing of every generated statement", "3 C11"),
  "C12": ("constants = 5-level UCSC scheme, one=True returns an int on every reachable path for every coordinate pair (interval abstract interpretation), fallback domain == out-of-range domain on all threshold cells, per-level formulas equal the scheme (shift normal forms)",
          "tightness ('no coarser than'); soundness of overlap is argued in specs/bins_proof.md from the checked premises",
          "interval + shift-normal-form abstract interpretation with the level loop unrolled", "3 C12"),
- "C13": ("DataIterator dispatch table over seven input kinds, peek keeps every item and re-chains in order, single transform site with yield guarded by its result only, create_db re-uses the peeked iterator with checklines=0, inspect counts on every pass before the limit test",
+ "C13": ("DataIterator dispatch table by abstract evaluation over every iterator class instance, string with from_string, string x exists x is_url, FeatureDB, iterable, generator (all wrapped with the same checklines/transform/dialect); peek evaluated on a one-shot stream and on a list (returns a prefix; afterwards the source still yields every item in order) for n = 0, 2, 10; file peek reads a fresh pass; transform applied once per item at one site, result replaces the item, falsy result skips; create_db hands the peeked iterator with checklines=0 to the importer; inspect counts each feature once, stops at the limit, counters by value/keys",
          "equality of databases over all seven forms and all checklines",
-         "order-sensitive decision table + CFG dominance / must-pass-through", "3 C13"),
- "C14": ("line classification table in cascade order, '##' strip from prefix length, alias rule on the directive list captured by create_db (no re-binding in iterator methods), persistence in list order and read-back",
-         "behaviour over all interleavings of concrete files (follows from the table and the alias rule)",
-         "order-sensitive decision table + alias (no-rebind) rule + parsed SQL", "3 C14"),
- "C15": ("net gap geometry previous.end+1..next.start-1 by affine slot tracking, suppression test == final start > end, yield in the seqid-change branch dead by constant propagation, strand/type/attribute rules, splice-site geometry and label table, level-1 exons ordered by start, no stores through inputs",
-         "the N-1 law and exact outputs over all ordered lists",
-         "affine slot tracking + constant propagation on the CFG + decision table", "3 C15"),
- "C16": ("partition typestate of merge() on every loop-body path (path enumeration), join test = all criteria on (run, feature), min/max extent updates, stores into the head dominated by the copy guard, id reset on run boundaries, splat keys within Feature.__init__ parameters, criteria == their specification and reflexive on a complete grid, merge_all / children_bp facts",
-         "extents = interval union for every multiset; idempotence",
-         "path enumeration with abstract typestate + difference-constraint grid decision", "3 C16"),
- "C17": ("only __setitem__ (after the list wrap) and __delitem__ write Attributes._d, always_return_list read only in the view (saved/restored in bed12), symmetric JSON codec, merge_attributes never stores through its arguments and deep-copies every value flow, equality/hash are functions of str(self)",
+         "abstract evaluation (partitioned dataflow interpreter with one-shot stream values) on scenarios", "3 C13; 9.7"),
+ "C14": ("line classification table: one pass of the file iterator evaluated per class of line followed by a sentinel (##FASTA and '>' stop, ## directive, # and empty skipped, others features incl. leading blank); terminators stripped before classification; directives stored without the leading ## in file order with repeats; iteration clears and refills the captured directive list in place (object identity), create_db hands that object to the importer, the importer keeps it, _finalize writes one row per directive in list order; read-back in row order",
+         "behaviour over all interleavings of concrete files (follows from the table and the identity rule)",
+         "abstract evaluation (partitioned dataflow interpreter over a stream of representative lines) + object-identity tracking + parsed SQL + value provenance", "3 C14; 9.7"),
+ "C15": ("interfeatures evaluated abstractly on neighbours 2/1/0/-1 bases apart and nested (gap = previous.end+1..next.start-1, suppressed iff start > end), three-feature lists, seqid changes (also right after a gap), strand pairs and triples, automatic/given type, attribute union through merge_attributes with numeric_sort, update_attributes, attribute_func, ID join, bin recomputed, inputs unchanged; splice sites per strand (two-base sites, labels) and introns; children queried at level 1 by type ordered by start",
+         "the N-1 law and exact outputs over all ordered lists beyond the scenarios",
+         "abstract evaluation (partitioned dataflow interpreter) on threshold scenarios of the order predicates", "3 C15; 9.7"),
+ "C16": ("merge() evaluated abstractly on start-ordered lists (overlap, adjacency, one base apart, other seqid/strand/type, two runs and a single, nested member, mixed columns under custom criteria): partition of the inputs, min/max extents, fresh ids and counters, criteria called with (run so far, feature, components) and conjoined, inputs unchanged and head copied, constructor keywords within Feature.__init__ parameters, children attached, merged outputs re-mergeable, same objects same result; every shipped criterion and threshold factory evaluated on a grid complete for difference constraints == specification, reflexive, monotone; merge_all (one stored feature per multi-member run, level-1 relations or deletion, criteria forwarded) and children_bp (sum of lengths, union with merge=True)",
+         "extents = interval union for every multiset beyond the scenarios",
+         "abstract evaluation (partitioned dataflow interpreter) on threshold scenarios + difference-constraint grid decision", "3 C16; 9.7"),
+ "C17": ("the container's own methods evaluated abstractly: scalars wrapped in a one-item list, lists/tuples stored as they are, update()/construction/feature[key]=value route through the wrap, nobody else writes the raw mapping; view with always_return_list on/off for one-item/two-item/tuple/empty values never changes what is stored; switch read only in the view, saved/restored by bed12; symmetric JSON codec; merge_attributes on two mappings: sorted duplicate-free union, numeric order keeping different spellings, arguments untouched, nothing shared; __eq__/__ne__/__hash__/__str__ as functions of the printed line",
          "JSON identity for arbitrary Unicode (simplejson's behaviour)",
-         "who-writes / who-reads rules + taint of argument aliases", "3 C17"),
- "C18": ("linear normal forms of every coordinate expression in __len__/sequence/bed12/to_bed12 equal the conventions, BED field order, span checks dominate the return, reverse-complement truth table, id-or-Feature parameters normalised before Feature use",
-         "string contents of sequences (pyfaidx), exact BED lines",
-         "linear normal form comparison + CFG dominance", "3 C18"),
- "C19": ("every CREATE TABLE unconditional and creation dominates population, force block is the only remover of the target and depends on `force` alone, transitive effect set of every read-style method contains SELECT only, built statements are SELECTs in every partition",
+         "abstract evaluation (partitioned dataflow interpreter, dispatch to the package classes' own methods) + who-writes / who-reads rules", "3 C17; 9.7"),
+ "C18": ("len = end - start + 1 and the stop/chrom aliases; sequence = FASTA[chrom][start-1:end], reverse-complemented iff use_strand and minus strand (six strand x flag cases); the twelve BED12 fields for a feature with exons and CDS (chromStart = start-1, thick bounds from thick or thin features, block sizes/starts/count, name/score/strand/rgb), no-thick and no-block cases, children queried ascending by start, always_return_list restored; ValueError when the first/last block does not span the feature; to_bed12; an id argument is looked up before it is used as a Feature in bed12/children_bp/to_bed12 (also without block children) and gives the same result as the Feature",
+         "string contents of sequences (pyfaidx)",
+         "abstract evaluation (partitioned dataflow interpreter with a summarised database) on concrete-coordinate scenarios", "3 C18; 9.7"),
+ "C19": ("every CREATE TABLE unconditional and creation dominates population; the creator constructor evaluated for force x (path / open connection) x (file exists or not) with all other options symbolic: the target is removed only under force, once, before connecting, and nothing else is; transitive effect set of every read-style method contains SELECT only (SQL assembled at run time resolved by abstract evaluation), built statements are SELECTs in every partition",
          "byte content of the file after a failed call (SQLite's behaviour for PRAGMAs and a failed script)",
-         "effect closure over the resolved call graph (class-hierarchy analysis) + parsed schema", "3 C19"),
- "C20": ("temp files named by tempfile only, every delete=False temp file unlinked on all normal CFG paths (only _keep_tempfiles may bypass) or removed by a registered finalizer, no module-level store and no foreign file effect in the import closure",
+         "effect closure over the resolved call graph (class-hierarchy analysis) + abstract evaluation of the constructor + parsed schema", "3 C19; 9.7"),
+ "C20": ("the routines that create temp files (_update_relations of both importers, DataIterator(from_string)) evaluated abstractly with symbolic verbose, empty-loop forks and _keep_tempfiles False/True/str: temp files named by tempfile only (no dir/prefix), only tempfile-derived paths opened for writing, each delete=False file unlinked on every returning path after the last write (unless kept) or handed to a finalizer that unlinks its argument, removed when construction fails; every write-open effect of the import closure is one of those; no module-level store and no foreign file effect in the import closure",
          "identical results under every schedule / process count / start offset: separate processes share no in-process state to analyse, and OS/SQLite locking is outside the source (declared not decidable by this technique)",
-         "acquire/release pairing on the CFG + effect footprint of the import call graph", "3 C20"),
+         "abstract evaluation (partitioned dataflow interpreter) into event traces + effect footprint of the import call graph", "3 C20; 9.7"),
 }
 
 checks = []
@@ -80,8 +80,9 @@ for pid in sorted(P):
         "engine": "gffsa",
         "level_claimed": {
             "category": "other",
-            "text": "Static analysis of /repo's current source (never executed). Decides the clauses whose truth is in the shape of the code on "
-                    "every path/configuration: " + dec + ". Does NOT decide: " + nodec + ". A pass means every decided clause holds on the "
+            "text": "Static analysis of /repo's current source (gffutils is never imported or executed; where 'evaluated abstractly' is said, gffsa's own "
+                    "partitioned dataflow interpreter walks the parsed source over symbolic values and threshold scenarios, forking on undecided tests). "
+                    "Decides: " + dec + ". Does NOT decide: " + nodec + ". A pass means every decided clause holds on the "
                     "current tree; it is a necessary-condition verdict, not an observation of behaviour. The thorough tier adds the checker "
                     "self-test (mutants must fire, behaviour-preserving twins must stay silent) and widened finite spaces.",
             "design_ref": "DESIGN.md section " + ref,
@@ -109,13 +110,14 @@ manifest = {
         "serves_properties": sorted(P),
         "kind_free_text": "repository-specific static analyser, pure standard library: source model with name/callee resolution, constant "
                           "folder, statement CFG with dominators/post-dominators, resolved call graph with effect summaries, partitioned "
-                          "forward dataflow (static string analysis) for the SQL builders, SQLite-subset parser with conjunctive-query "
-                          "normal form, interval/shift-normal-form abstract interpreter, small decision procedures on extracted formulas",
+                          "forward dataflow / abstract evaluator over the parsed source (strings with holes, symbolic objects, one-shot streams, "
+                          "callee summaries), interprocedural value provenance, sequence-length abstract interpretation, SQLite-subset parser with "
+                          "conjunctive-query normal form, interval/shift-normal-form abstract interpreter, small decision procedures",
     }],
     "checks": checks,
     "not_applicable": [],
     "notes": "All twenty properties are claimed at clause level (category 'other'); what each check does not decide is stated in its "
-             "level_claimed.text and in DESIGN.md. known_findings.json lists the one recorded defect (F10, both importers) and eleven "
+             "level_claimed.text and in DESIGN.md. known_findings.json lists the one recorded defect (F10, both importers) and twelve "
              "repaired ones ('fix:' commits in /repo). Exit codes: 0 pass / only listed known findings, 1 + VIOLATION line, 2 + "
              "ANALYSIS-ERROR (the analysis could not run: fail closed, never a silent pass).",
 }
